@@ -17,10 +17,10 @@ def publisher_body(run):
 
 def r1(run):
     sends = publisher_body(run)
-    run.exact("broadcast::Sender<Frame>::send call sites", len(sends), 1, detail=[c.sp for c in sends])
+    run.floor("broadcast::Sender<Frame>::send call sites", len(sends), 1)
     if not sends:
         return
-    send = sends[0]
+    send = ([c for c in sends if c.body.def_ == C.APPEND] or sends)[0]
     b = send.body
     run.touch(b)
     run.ob("%s|is-append" % b.def_, b.def_ == C.APPEND, b.sp, "the publishing function is Store::append (test-pinned name): %s" % b.def_)
@@ -41,7 +41,7 @@ def r1(run):
         tys = run.facts.lib.types.s(fld[0]["ty"])
         if tys.startswith("alloc::sync::Arc<std::sync::poison::mutex::Mutex<") or tys.startswith("alloc::sync::Arc<std::sync::poison::rwlock::RwLock<"):
             shared.append((lc, gl, acq, path, tys))
-    sites = [("id-assignment", c) for c in ids] + [("commit(insert_frame)", c) for c in inserts] + [("broadcast", send)]
+    sites = [("id-assignment", c) for c in ids] + [("commit(insert_frame)", c) for c in inserts] + [("broadcast" if i == 0 else "broadcast#%d" % (i + 1), c) for i, c in enumerate([send] + [c for c in sends if c is not send and c.body is b])]
     best = None
     for (lc, gl, acq, path, tys) in shared:
         res = [(name, c, q.held_at(b, acq, gl, c.bb)) for name, c in sites]
